@@ -37,6 +37,14 @@ PROPS = {
     'C07': {'quick': ['A', 'B'], 'thorough': ALLCFG, 'level': 'other', 'e2': True, 'roots': 'anchors'},
     'C11': {'quick': ['A', 'B'], 'thorough': ALLCFG, 'level': 'other', 'e2': True, 'roots': 'anchors'},
     'C18': {'quick': ['A', 'B'], 'thorough': ALLCFG, 'level': 'other', 'e2': True, 'roots': 'anchors'},
+    'C08': {'quick': ['A', 'B'], 'thorough': ALLCFG, 'level': 'other', 'e2': True, 'roots': 'anchors'},
+    'C09': {'quick': ['A', 'B'], 'thorough': ALLCFG, 'level': 'other', 'e2': True, 'roots': 'anchors'},
+    'C10': {'quick': ['A', 'B'], 'thorough': ALLCFG, 'level': 'other', 'e2': True, 'roots': 'anchors'},
+    'C13': {'quick': ['A', 'B'], 'thorough': ALLCFG, 'level': 'other', 'e2': True, 'roots': 'anchors'},
+    'C14': {'quick': ['A', 'B'], 'thorough': ALLCFG, 'level': 'other', 'e2': True, 'roots': 'anchors'},
+    'C15': {'quick': ['A', 'B'], 'thorough': ALLCFG, 'level': 'other', 'e2': True, 'roots': 'anchors'},
+    'C16': {'quick': ['A', 'B'], 'thorough': ALLCFG, 'level': 'other', 'e2': True, 'roots': 'anchors'},
+    'C20': {'quick': ['D'], 'thorough': ['D'], 'level': 'other', 'e2': True, 'roots': 'anchors'},
 }
 BEHAVIOURAL = {p for p, s in PROPS.items() if s.get('roots') == 'anchors'}
 
@@ -181,7 +189,18 @@ def e2_collect(pid, facts, merged):
             # fail closed on anchors: every root the property's schemas are written for must exist
             from . import specs
             have = {tuple(r.get('root_key') or ()) for r in m['roots'].values()}
-            allv = [v for v in allv if v['rule'] not in ('COVERAGE', 'CENSUS', 'FLOOR')]
+            keep_census = pid == 'C13'
+            allv = [v for v in allv if v['rule'] not in ('COVERAGE', 'FLOOR') and (keep_census or v['rule'] != 'CENSUS')]
+            if pid == 'C13':
+                for v in allv:
+                    if v['rule'] == 'CENSUS':
+                        v['props'] = ['C13']
+                n_w, w = graph.who_may_call(f, 'get_disjoint_unchecked_mut', {'get_disjoint_mut'})
+                for v in w:
+                    v['props'] = ['C13']
+                allv += w
+                ob += n_w + n_cen
+                dis += n_w - len(w) + n_cen - len(cen)
             anchors = specs.anchors(pid)
             for k in anchors:
                 if tuple(k) not in have:
